@@ -70,7 +70,7 @@ def load_known():
         return json.load(f)
 
 
-def decide(pid, results, tier, t0, level="other", extra_assumptions=None, design_ref=None):
+def decide(pid, results, tier, t0, level="other", extra_assumptions=None, design_ref=None, controls=None):
     """Compare findings with known findings, print lines, write evidence, return exit status."""
     known = load_known()
     known_keys = {}
@@ -168,6 +168,7 @@ def decide(pid, results, tier, t0, level="other", extra_assumptions=None, design
             "known_findings": [fd.key for fd in known_hit],
             "stale_known_findings": stale,
             "exhaustive": True,
+            "controls": controls if controls is not None else "not run in the quick tier",
         },
         "assumptions": ["asserts enabled (-UNDEBUG) as in the tested build",
                         "library lists are acyclic", "clang's CFG is faithful to C semantics"] + (extra_assumptions or []),
